@@ -255,6 +255,15 @@ func streamHview() {
 				}
 			}
 		}
+		// an edit to a validity whose end lies beyond the year 9999: the configuration must be refused, not hashed (F28: the hash
+		// function panicked on such a date once the entity had an artifact)
+		if i%4 == 0 || thorough() {
+			for k, v := range []Validity{{From: "9999-12-31", Duration: "1d"}, {From: "2024-01-01", Duration: "9999y"}, {From: "9997-06-01"}} {
+				a, b := base, base
+				b.cfg.Validity = v
+				emitPair(fmt.Sprintf("%s-end-beyond-9999-%d", tag, k), a, b, true)
+			}
+		}
 		// a validity inherited from the profile: its end date / duration is certificate relevant with and without a start date
 		{
 			mk := func(v Validity) hside {
